@@ -26,7 +26,7 @@ type Event struct {
 	Err    string   `json:"err,omitempty"`   // injected error returned by this call
 	Rows   int      `json:"rows,omitempty"`  // id of the result set
 	Closed bool     `json:"closed,omitempty"`
-	Seq    int64    `json:"seq"`             // global order across all databases of the process
+	Seq    int64    `json:"seq"` // global order across all databases of the process
 }
 
 var globalSeq int64
@@ -101,7 +101,8 @@ type State struct {
 	ClosedStmtUse int
 	DoubleClose   int
 	// failNext: one-shot faults, by event kind (see FailNext)
-	failNext map[string]error
+	cancelNext map[string]func()
+	failNext   map[string]error
 }
 
 func NewState() *State {
@@ -146,6 +147,17 @@ func (s *State) FailNext(kind string, err error) {
 	s.failNext[kind] = err
 }
 
+// CancelNext makes the next driver call of the given kind call cancel just before it
+// returns successfully (once): the caller's context ends right after the driver is done.
+func (s *State) CancelNext(kind string, cancel func()) {
+	s.mu.Lock()
+	defer s.mu.Unlock()
+	if s.cancelNext == nil {
+		s.cancelNext = map[string]func(){}
+	}
+	s.cancelNext[kind] = cancel
+}
+
 // StmtCount is the number of statements prepared so far (the id of the latest one).
 func (s *State) StmtCount() int {
 	s.mu.Lock()
@@ -184,6 +196,10 @@ func (s *State) record(e Event) (Event, *Fault) {
 		delete(s.failNext, e.Kind)
 		f = &Fault{Kind: e.Kind, Err: err}
 		e.Err = err.Error()
+	}
+	if cancel, ok := s.cancelNext[e.Kind]; ok && f == nil {
+		delete(s.cancelNext, e.Kind)
+		f = &Fault{Kind: e.Kind, Cancel: cancel}
 	}
 	e.Seq = atomic.AddInt64(&globalSeq, 1)
 	s.events = append(s.events, e)
@@ -309,8 +325,12 @@ func (st *stmt) Close() error {
 
 func (st *stmt) NumInput() int { return -1 }
 
-func (st *stmt) Exec([]driver.Value) (driver.Result, error) { return nil, errors.New("use ExecContext") }
-func (st *stmt) Query([]driver.Value) (driver.Rows, error)  { return nil, errors.New("use QueryContext") }
+func (st *stmt) Exec([]driver.Value) (driver.Result, error) {
+	return nil, errors.New("use ExecContext")
+}
+func (st *stmt) Query([]driver.Value) (driver.Rows, error) {
+	return nil, errors.New("use QueryContext")
+}
 
 // ValueText is the canonical text of a value as the driver sees it.
 func ValueText(v any) string {
